@@ -79,6 +79,96 @@ def _runs_while_nonzero(sw, subject, loop):
 
 # ------------------------------------------------------------------------------------ pin_to_bytes
 
+def _prefix_reversed(rep, rule, fn, se, env, loop_plumbing=()):
+    """out[0..i] is reversed in place and returned (env maps the position's term to "i")"""
+    body = se.body
+    # reverse out[0..i] and return out[0..i]
+    calls = [se.term_info[b] for b in sorted(se.term_info) if se.term_info[b].get("k") == "call"]
+    names = [c["name"].split("::")[-1] for c in calls]
+
+    def is_view(t):
+        """t (stripped) is the prefix out[0..i]: out[0..i] / out[..i] / out.split_at_mut(i).0"""
+        if util.is_call(t) and t[1].endswith("::index_mut") and len(t[2]) == 2:
+            r = strip(t[2][1])
+            if r[0] == "agg" and r[2] == "std::ops::Range":
+                return N(r[4][0], env) == I(0) and N(r[4][1], env) == S("i")
+            if r[0] == "agg" and r[2] == "std::ops::RangeTo":
+                return N(r[4][0], env) == S("i")
+            return False
+        if t[0] == "field" and t[2] == 0 and util.is_call(t[1]) and t[1][1].endswith("<impl [T]>::split_at_mut"):
+            return N(t[1][2][1], env) == S("i")
+        return False
+
+    views = [c for c in calls if c["name"].endswith("::index_mut") or c["name"].endswith("<impl [T]>::split_at_mut")]
+    revs = [c for c in calls if c["name"].endswith("<impl [T]>::reverse")]
+    others = [c for c in calls if c not in views and c not in revs and c["name"] not in loop_plumbing]
+    good = False
+    if len(revs) == 1 and not others and 1 <= len(views) <= 2:
+        la = revs[0]["locargs"][0]
+        recv = strip(la[1][1]) if la[0] == "ref" and la[1][0] == "deref" else None
+        # every view is of the output array, the reverse acts on a prefix view, a prefix view is returned
+        on_out = all(strip(v["locargs"][0])[0] == "param" or v["locargs"][0] == ("ref", ("deref", ("param", 2)), True) for v in views)
+        good = recv is not None and is_view(recv) and is_view(strip(se.ret)) and on_out
+        # a view taken before the reverse and returned, or a fresh one of the same range afterwards
+        good = good and all(is_view(strip(v["term"])) or is_view(("field", strip(v["term"]), 0)) for v in views)
+    rep.check(good, rule, fn, "reverse", "out[0..i] is reversed (most significant digit first) and returned", "the digits are not reversed in place / the returned slice is not out[0..i]", body.loc())
+
+
+
+def pin_to_bytes_slots(ctx, rep, rule, fn, se):
+    """the digits written through the slots of the output array:
+        for slot in out.iter_mut() { if pin == 0 { break } *slot = pin % 10; pin /= 10; i += 1 }
+    Slot k is reached in iteration k, and i == k there (an iteration that does not break counts).
+    The array has room for every digit of a u32 (at most 10), so the loop is left by the break
+    exactly when the `while pin != 0` form is - and if the slots do run out, pin is 0 by then.
+    Returns False when the function is not of this form (nothing is reported then)."""
+    body = se.body
+    loops = util.for_loops(ctx, se)
+    if len(loops) != 1 or len(cfg.back_edges(body)) != 1 or "slice::IterMut" not in (loops[0]["resolved"] or ""):
+        return False
+    lp = loops[0]
+    head = lp["next_bb"]
+    ini = strip(lp["init"]) if lp["init"] is not None else ("?",)
+    if not util.is_call(ini, "core::slice::<impl [T]>::iter_mut"):
+        return False
+    la = (se.term_info.get(ini[3][1], {}).get("locargs") or (("?",),))[0]
+    t2 = body.local_ty(2)
+    if la != ("ref", ("deref", ("param", 2)), True) or not (t2 is not None and t2.k == "ref" and t2.to is not None and t2.to.k == "array" and (t2.to.len or 0) >= 10):
+        return False
+    st = loop_state(se, head)
+    elem = lp["elem"]
+    pin = idx = slot = None
+    for key, (init, step) in st.items():
+        ph = phi_of(se, head, key)
+        if strip(init) == ("param", 1):
+            pin = (key, ph, step)
+        elif strip(init)[:2] == ("int", 0) and key[0] == "local":
+            idx = (key, ph, step)
+        elif key[0] == "deref" and strip(key[1]) == strip(elem):
+            slot = (key, ph, step)
+    if not (pin and idx and slot):
+        return False
+    env = {pin[1]: "pin", idx[1]: "i"}
+    got = {"pin": N(pin[2], env), "i": N(idx[2], env), "slot": N(slot[2], env)}
+    want = {"pin": ("Div", S("pin"), I(10)), "i": comm(("add", S("i"), I(1))), "slot": ("trunc", "u8", ("rem", S("pin"), I(10)))}
+    rep.check(got == want, rule, fn, "step", "per iteration: *slot = pin % 10; pin /= 10; i += 1 (slot k in iteration k, i == k)", "digit extraction step is %s" % {k: arith.show(v) if isinstance(v, tuple) else v for k, v in got.items()}, body.loc())
+    loop = cfg.natural_loop(body, cfg.back_edges(body)[0])
+    sws = [(bb, i_) for bb, i_ in se.term_info.items() if i_.get("k") == "switch" and bb in loop and bb != lp["switch_bb"]]
+    good = False
+    if len(sws) == 1:
+        bb_t, sw = sws[0]
+        idom = cfg.dominators(body)
+        stores = [k for k, (loc, v) in se.assigns.items() if loc[0] == "deref" and strip(loc[1]) == strip(elem)]
+        brk = [s_ for s_ in body.succs(bb_t) if s_ not in loop]
+        exits = util.loop_exits(body, head)
+        good = (_runs_while_nonzero(sw, pin[1], loop) and len(stores) == 1 and cfg.dominates(idom, bb_t, stores[0][0])
+                and all(cfg.dominates(idom, stores[0][0], t_) for t_, h_ in cfg.back_edges(body))
+                and len(brk) == 1 and exits == {(lp["switch_bb"], lp["exit_bb"]), (bb_t, brk[0])})
+    rep.check(good, rule, fn, "exit", "the loop is left at the first slot reached with pin == 0, before anything is written there (all digits, no leading zero; ten slots suffice for a u32)", "the slot loop is not left exactly when the remaining pin is 0", body.loc())
+    _prefix_reversed(rep, rule, fn, se, dict(env), loop_plumbing=("core::slice::<impl [T]>::iter_mut", "<I as std::iter::IntoIterator>::into_iter", "<std::slice::IterMut<'a, T> as std::iter::Iterator>::next"))
+    return True
+
+
 def pin_to_bytes_rule(ctx, rep, rule="digits"):
     fn = "pin::pin_to_bytes"
     se = ctx.wrap.run(fn)
@@ -89,6 +179,8 @@ def pin_to_bytes_rule(ctx, rep, rule="digits"):
     be = cfg.back_edges(body)
     if len(be) != 1:
         rep.violation(rule, fn, "shape", "expected a single loop, found %d" % len(be), body.loc())
+        return
+    if pin_to_bytes_slots(ctx, rep, rule, fn, se):
         return
     head = be[0][1]
     st = loop_state(se, head)
@@ -125,36 +217,7 @@ def pin_to_bytes_rule(ctx, rep, rule="digits"):
     if len(sw) == 1:
         good = _runs_while_nonzero(sw[0][1], pin[1], cfg.natural_loop(body, be[0]))
     rep.check(good, rule, fn, "exit", "loop runs while pin != 0 (all digits, no leading zero)", "loop exit test is not `pin != 0`", body.loc())
-    # reverse out[0..i] and return out[0..i]
-    calls = [se.term_info[b] for b in sorted(se.term_info) if se.term_info[b].get("k") == "call"]
-    names = [c["name"].split("::")[-1] for c in calls]
-
-    def is_view(t):
-        """t (stripped) is the prefix out[0..i]: out[0..i] / out[..i] / out.split_at_mut(i).0"""
-        if util.is_call(t) and t[1].endswith("::index_mut") and len(t[2]) == 2:
-            r = strip(t[2][1])
-            if r[0] == "agg" and r[2] == "std::ops::Range":
-                return N(r[4][0], env) == I(0) and N(r[4][1], env) == S("i")
-            if r[0] == "agg" and r[2] == "std::ops::RangeTo":
-                return N(r[4][0], env) == S("i")
-            return False
-        if t[0] == "field" and t[2] == 0 and util.is_call(t[1]) and t[1][1].endswith("<impl [T]>::split_at_mut"):
-            return N(t[1][2][1], env) == S("i")
-        return False
-
-    views = [c for c in calls if c["name"].endswith("::index_mut") or c["name"].endswith("<impl [T]>::split_at_mut")]
-    revs = [c for c in calls if c["name"].endswith("<impl [T]>::reverse")]
-    others = [c for c in calls if c not in views and c not in revs]
-    good = False
-    if len(revs) == 1 and not others and 1 <= len(views) <= 2:
-        la = revs[0]["locargs"][0]
-        recv = strip(la[1][1]) if la[0] == "ref" and la[1][0] == "deref" else None
-        # every view is of the output array, the reverse acts on a prefix view, a prefix view is returned
-        on_out = all(strip(v["locargs"][0])[0] == "param" or v["locargs"][0] == ("ref", ("deref", ("param", 2)), True) for v in views)
-        good = recv is not None and is_view(recv) and is_view(strip(se.ret)) and on_out
-        # a view taken before the reverse and returned, or a fresh one of the same range afterwards
-        good = good and all(is_view(strip(v["term"])) or is_view(("field", strip(v["term"]), 0)) for v in views)
-    rep.check(good, rule, fn, "reverse", "out[0..i] is reversed (most significant digit first) and returned", "the digits are not reversed in place / the returned slice is not out[0..i]", body.loc())
+    _prefix_reversed(rep, rule, fn, se, env)
 
 
 def pin_to_bytes_backfill(ctx, rep, rule, fn, se, be, pin, idx, arr):
